@@ -1,8 +1,15 @@
 import PytezosModel.Props.C01
 #print axioms C01.exec_refines_spec
+#print axioms C01.run_eq_guarded
 #print axioms C01.run_ok
 #print axioms C01.run_failwith
+#print axioms C01.run_rtfail
 #print axioms C01.guarded_is_reference
 #print axioms C01.run_eq_reference
+#print axioms C01.progress
+#print axioms C01.welltyped_outcomes
+#print axioms C01.welltyped_run_eq_reference
+#print axioms C01.welltyped_terminating_run
+#print axioms C01.welltyped_program_run
 #print axioms C01.dip_n_spec
 #print axioms C01.map_empty_counterexample
